@@ -262,7 +262,20 @@ def fault_case(ctx, rng, worker):
             flat_lines = text_body.split("\n")
             fault_text = lines[fidx]
             line_no_in_body = sum(l.count("\n") + 1 for l in lines[:fidx]) + 1
-            if use_include:
+            first_decl = next((k for k, l in enumerate(lines[:fidx]) if l == fault_text), None) if kind == "duplicate-label" else None
+            if first_decl is not None and rng.random() < 0.5:
+                # the two declarations live in different files: the original stays in the root file, the duplicate (the
+                # fault) sits near the top of an included file, i.e. at a smaller byte offset than the original
+                cut = rng.randint(first_decl + 1, fidx)
+                main_part = "\n".join(lines[:cut]) + "\n"
+                tail_part = "\n".join(lines[cut:]) + "\n"
+                files = {"main.asm": head + "\n\n" + main_part + "#include \"sub/tail.asm\"\n", "sub/tail.asm": tail_part}
+                ffile, fline = "sub/tail.asm", sum(l.count("\n") + 1 for l in lines[cut:fidx]) + 1
+                use_include_here = True
+                text_body = tail_part
+                line_no_in_body = fline
+                ctx.count("duplicate-across-files")
+            elif use_include:
                 files = {"main.asm": head + "\n\n#include \"sub/body.asm\"\n", "sub/body.asm": text_body}
                 ffile, fline = "sub/body.asm", line_no_in_body
             else:
@@ -275,7 +288,7 @@ def fault_case(ctx, rng, worker):
                 ctx.excluded += 1
                 continue
             u3(ctx, job, rec, files, count_nontrivial=False)
-            if any(l.lstrip().startswith("#d ") for k, l in enumerate(lines) if k != fidx and l not in body_lines):
+            if ffile != "sub/tail.asm" and any(l.lstrip().startswith("#d ") for k, l in enumerate(lines) if k != fidx and l not in body_lines):
                 # a decoration that emits data moves every later address: the decorated program without the fault line
                 # must still be valid, otherwise the case contains a second, unintended fault (e.g. an operand that no
                 # longer fits the smallest encoding and makes two rules tie)
